@@ -65,6 +65,10 @@ func ParseFile(f FileInput, opts ...Option) (prog *Prog, _ error) {
 				rerr <- nil
 				break
 			}
+			if n == 0 {
+				// a read of zero bytes carries no data and is not the end
+				continue
+			}
 			select {
 			case inpc <- string(b[:n]):
 				continue
